@@ -184,6 +184,11 @@ def sys_state(h, sysm, with_ud=True):
         if isinstance(c, RigidBody):
             P = q[c.qDOF[3:7]]
             h.assume(P @ P > 0, "quaternion nonzero")
+        elif hasattr(c, "nodalDOF_p") and hasattr(c, "nnodes_p"):
+            for k in range(c.nnodes_p):
+                P = q[c.qDOF[c.nodalDOF_p[k]]]
+                if len(P) == 4:
+                    h.assume(P @ P > 0, "nodal quaternion nonzero")
     return t, q, u, ud
 
 
@@ -237,7 +242,7 @@ class RevolutePair:
     """two rigid bodies (or frame + rigid body) connected by a Revolute joint, both bodies initially unrotated, joint
     frame given by an integer quaternion; provides states on the joint manifold parametrised by the joint angle"""
 
-    def __init__(self, h, seed=0, axis=2, first="RB", angle0=0.0, extra=None, Pb0=None):
+    def __init__(self, h, seed=0, axis=2, first="RB", angle0=0.0, extra=None, Pb0=None, w0=None):
         from cardillo import System
         from cardillo.discrete import RigidBody, Frame
         from cardillo.constraints import Revolute
@@ -258,6 +263,14 @@ class RevolutePair:
         # Pb0: initial orientation of the second body (exact rational unit quaternion); state() then does not apply
         self.Pb0 = Pb0
         self.b = RigidBody(2.0, np.diag([2.0, 1.0, 1.5]), q0=np.concatenate([r_b0, e0 if Pb0 is None else Pb0]), name="b")
+        if w0 is not None:
+            # admissible initial velocity: the (unrotated) second body spins with rate w0 about the joint axis through the joint point
+            assert first != "RB" and Pb0 is None
+            e = self.A_IJ0[:, axis]
+            d = r_b0 - self.r_J0
+            om = [w0 * e[i] for i in range(3)]
+            v = [om[1] * d[2] - om[2] * d[1], om[2] * d[0] - om[0] * d[2], om[0] * d[1] - om[1] * d[0]]
+            self.b.u0 = h.arr(v + om)
         self.B1 = self.r_J0 - r_a0
         self.B2 = self.r_J0 - r_b0
         self.r_a0 = r_a0
